@@ -1030,6 +1030,11 @@ impl RelationalSlab {
         }
     }
 
+    /// Replaces the contents of this slab with a snapshot's, in place.
+    pub fn restore_from(&self, snapshot: RelationalSlabSnapshot) {
+        *self.tables.write() = snapshot.tables;
+    }
+
     /// Restores from a snapshot.
     #[must_use]
     pub fn restore(snapshot: RelationalSlabSnapshot) -> Self {
